@@ -21,7 +21,7 @@ UNITS.append(dict(
     tus=[dict(file='bus/dispatch.c', overlay='c03_dispatch.ovl', include_as='VERIF_TU')], harness='harness/c03_dispatch.c',
     replace_calls=bind(['bus_dispatch', 'bus_context_log']), timeout=600, expect_s=30,
     allow_skip_msg=True,   # constant-bound loops of the harness/stubs and libc strcmp carry no contract (they are not under contract); the guard for bus_dispatch's own loop is must_have
-    must_have=['Check invariant after step for loop bus_dispatch.0', 'post.C03.stamped', 'post.C18.capture-once', 'post.C05.owner', 'post.C14.finish-once', 'precondition of bus_transaction_capture'],
+    must_have=['Check invariant after step for loop bus_dispatch.0', 'post.C03.stamped', 'post.C18.capture-once', 'post.C05.owner', 'post.C14.finish-once', 'precondition of bus_transaction_capture', 'precondition of bus_dispatch_matches: the routed message has a non-zero serial'],
     functions=[dict(name='bus_dispatch', file='bus/dispatch.c', status='enforced', contract='typestate postconditions C03/C05/C18/C10/C14 (harness/c03_dispatch.c)'),
                LIBDBUS_MODEL],
     assumptions=[]))
@@ -133,6 +133,16 @@ UNITS.append(dict(
     assumptions=['precondition on the static counters (injected at function entry by contracts/c03_driver.ovl, the only way to name static locals): 0 <= major, 0 <= minor, major > 0 or minor == 0 (shown to be preserved)',
                  'no-wrap assumptions injected before the two increments: major < INT_MAX (the code\'s own "INT_MAX * INT_MAX clients were added") and minor < INT_MAX (the code relies on signed wrap-around of next_minor_number, undefined behaviour: see unit C03.mint.wrap)',
                  'injectivity of decimal printing (_dbus_string_append_int = snprintf("%d"))']))
+
+UNITS.append(dict(
+    name='C18.owner_changed', props=['C18', 'C03', 'C10'], kind='P', route='stub', bus=True, entry='harness_owner_changed',
+    tus=DRV, harness='harness/c03_driver.c', replace_calls=bind(['bus_driver_send_service_owner_changed']), timeout=300, expect_s=5,
+    must_have=['post.C03.driver-signal', 'post.C18.capture-then-route', 'precondition of bus_dispatch_matches'],
+    functions=[dict(name='bus_driver_send_service_owner_changed', file='bus/driver.c', status='enforced', contract='NameOwnerChanged: sender org.freedesktop.DBus, three strings, captured once then routed once as a broadcast, released once'),
+               dict(name='bus_dispatch_matches', file='bus/dispatch.c', status='stub', note='contract enforced (B <= 3) by unit C05.matches; REQUIRES a non-zero serial (refusals are reported to monitors as error replies)'),
+               dict(name='bus_transaction_capture', file='bus/connection.c', status='stub', note='contract enforced (B <= 3) by unit C18.capture'),
+               LIBDBUS_MODEL],
+    assumptions=[]))
 
 # Diagnostic variants (role 'finder': never part of a check; run them with tool.core directly). They state the specification
 # without a documented exception of the code and are RED on the unchanged tree -- see the helper's report.
